@@ -83,6 +83,17 @@ def _expected(cl, lo, fac, Xd, yd):
 
 
 def _run_sequence(c, seq):
+    import sparseSpACE.GridOperation as GO
+    # with "threshold": 0 the large-grid implementations of interpolation / right-hand side (normally used from 200 grid points on)
+    # serve these small grids, through the guarded verification hook
+    GO._VERIF_DE_THRESHOLD = c.get("threshold")
+    try:
+        return _run_sequence_inner(c, seq)
+    finally:
+        GO._VERIF_DE_THRESHOLD = None
+
+
+def _run_sequence_inner(c, seq):
     from sparseSpACE.DEMachineLearning import DataSet
     cl = _learn(c)
     lo, hi = cl.get_dataset_range()
@@ -200,6 +211,8 @@ def cases(tier):
                             if perm is not None:
                                 cfg["shuffle"], cfg["perm"] = True, perm
                             out.append({"config": cfg})
+                            if perm is None and pct == 0.7 and even:
+                                out.append({"config": dict(cfg, threshold=0)})
     return out
 
 
@@ -222,4 +235,4 @@ def main(ctx):
              "first evaluation is repeated at the end (evaluations = sequences)",
         assumptions=["the expected class uses the learned classifiers themselves (their correctness is C16/C17) under the scaling fixed at "
                      "learning time; samples whose two best densities are within 1e-9 are treated as ties (either class accepted)",
-                     "shuffle permutation chosen by the explorer; lambda=0.01, levels 1..3 (standard) / 1..2 with 30 evaluations (dimension-wise)"])
+                     "configurations with threshold=0 run the large-grid code paths on the same small grids (guarded hook); shuffle permutation chosen by the explorer; lambda=0.01, levels 1..3 (standard) / 1..2 with 30 evaluations (dimension-wise)"])
